@@ -356,7 +356,11 @@ def check_extend(rep, F):
             first = sp.simplify(st["idx"][0] - ksym + l["init"].get(kk))
             gv = grow[0]["args"][-1]
             d = sp.simplify(gv - first) if not isinstance(gv, (tuple, sp.Matrix)) else None
-            ok = not first.has(ksym) and str(first) == "cols(%s.V)" % pp and d is not None and str(getattr(d, "func", "")) == "count" and "root_converged" in str(d) and "False" in str(d)
+            RCs = S(pp + ".root_converged")
+            unconv = [Fn("count")(("==", RCs, False)) if False else None]
+            d_ok = d is not None and ((str(getattr(d, "func", "")) == "count" and "root_converged" in str(d) and "False" in str(d)) or
+                                      sp.simplify(d - (Fn("size")(RCs) - Fn("count")(RCs))) == 0)
+            ok = not first.has(ksym) and str(first) == "cols(%s.V)" % pp and d_ok
             base = first
             why = "the search space is resized to %s while columns are written from %s on" % (gv, base)
     rep.check(ok, "R9.6", "corrections", "one correction per unconverged tracked root, every tracked root visited", "DavidsonSolver::extendProjection: " + why, f.loc(), sample=True)
